@@ -29,12 +29,23 @@ def run(ctx):
     if obs is None:
         ctx.broken_tie("harness does not build or crashed", err)
         return
+    # the late-registration sequence of the harness: steps with their own oracle, and the registry entries that were added
+    late = [o for o in obs if o.get("k") == "late"]
+    extra = "".join(" ++ " + o["entries"] for o in obs if o.get("k") == "late-reg")
+    obs = [o for o in obs if o.get("k") == "rt"]
+    imports = cc.IMPORTS.replace("Definition reg := mk_reg eo_table.", "Definition reg := mk_reg eo_table%s." % extra)
     ctx.log("%d generated values encoded and decoded by the implementation" % len(obs))
 
     # oracle: Encode succeeds, Decode of the encoding succeeds, consumes exactly the encoding, and the decoded value is
     # the normal form of the value: it is a fixed point of decode.encode, and equal to the value up to the
     # documented normalisations (checked against the model's decoded tree by the correspondence below)
     new, seen = 0, set()
+    for o in late:
+        if not o["ok"] and ctx.finding("late-registration/" + o["step"].split(" ")[0],
+                                       "a type registered after its id was first seen: %s (%s): %s" % (o["step"], o["id"], o["what"]),
+                                       {"step": o["step"], "id": o["id"], "hex": o.get("hex"), "observed": o["what"],
+                                        "how": "codecharness values: decode with the id unregistered, ua.RegisterExtensionObject / ua.RegisterService, decode again"}):
+            new += 1
     for o in obs:
         why = None
         if o["enc"] != "ok":
@@ -63,7 +74,7 @@ def run(ctx):
     corr_ok = True
     mism = []
     if okm:
-        okc, idx, clog = cc.correspond_values(ctx, obs)
+        okc, idx, clog = cc.correspond_values(ctx, obs, imports=imports)
         if not okc:
             corr_ok = False
             detail["cases"] = clog[-2000:]
@@ -83,7 +94,7 @@ def run(ctx):
     # generated values outside rwf must be those of the known finding (an extension object with an empty registered struct)
     wf_n, wf_out = None, []
     if okm:
-        imports = cc.IMPORTS.replace("Model.CodecEq ", "Model.CodecEq Model.CodecWf Model.CodecWfAll ")
+        imports = imports.replace("Model.CodecEq ", "Model.CodecEq Model.CodecWf Model.CodecWfAll ")
         okw, idxw, wlog = ctx.eval_cases(imports, "ty * val", ["(%s, %s)" % (o["ty"], o["val"]) for o in obs],
                                          "  rwf reg (fst c) (snd c)", shard=80, name="WfCases")
         if okw:
@@ -105,12 +116,13 @@ def run(ctx):
             kinds[k] = kinds.get(k, 0) + 1
     ctx.coverage.update({
         "evaluations": len(obs), "distinct_nontrivial": len(distinct),
-        "rule": "%d values per registered service / extension-object type (%d types) and %d per hand-written codec, generated from the reflect.Type by the seeded PRNG: boundary-biased integers, NaN payloads, nil/empty/short slices and byte strings, DateTime zero/min/max/off-grid/9999-12-31/1601/before 1677, every Variant type id x scalar/nil/empty/1-D/2-D/3-D, plus (deterministic) for every builtin type id 1-D and n-D arrays of MINIMAL-size elements (bare, inside a DataValue followed by status/timestamps, inside a ReadResponse) and rank 3/4 arrays with pairwise different elements and trailing dimensions > 1, random DataValue/DiagnosticInfo/LocalizedText masks, all six NodeID encodings x flag bits, extension objects empty/XML/any registered body; distinct = distinct (type, encoding) with a non-empty encoding" % (n, len({o["ty"] for o in obs}) - 8, 12 * n),
+        "rule": "%d values per registered service / extension-object type (%d types) and %d per hand-written codec, generated from the reflect.Type by the seeded PRNG: boundary-biased integers, NaN payloads, nil/empty/short slices and byte strings, DateTime zero/min/max/off-grid/9999-12-31/1601/before 1677, every Variant type id x scalar/nil/empty/1-D/2-D/3-D, plus (deterministic) for every builtin type id 1-D and n-D arrays of MINIMAL-size elements (bare, inside a DataValue followed by status/timestamps, inside a ReadResponse) and rank 3/4 arrays with pairwise different elements and trailing dimensions > 1, a late-registration sequence (two extension object ids and a service id decoded while unregistered, then registered, then decoded and round-tripped; the model's registry is the one after the registration), random DataValue/DiagnosticInfo/LocalizedText masks, all six NodeID encodings x flag bits, extension objects empty/XML/any registered body; distinct = distinct (type, encoding) with a non-empty encoding" % (n, len({o["ty"] for o in obs}) - 8, 12 * n),
         "samples": [{k: o[k] for k in ("ty", "val", "hex", "consumed") if k in o} for o in obs[:2] + obs[-2:]],
         "types_hit": len({o["ty"] for o in obs}),
         "variant_shapes_hit": len(kinds),
         "traces_validated_against_impl": len(obs) if corr_ok else len(obs) - len(mism),
         "model_impl_mismatches": len(mism),
+        "late_registration_steps": len(late),
         "service_messages_through_DecodeService": sum(1 for o in obs if "svc" in o),
         "values_satisfying_theorem_hypothesis_rwf": wf_n,
         "values_outside_rwf_not_in_known_class": len(wf_out),
